@@ -27,6 +27,13 @@ func newTopicState(bcast *memberlist.TransmitLimitedQueue) *topicsState {
 func (t *topicsState) mergeMessages(messages []*api.RetainedMessage) error {
 	t.mu.Lock()
 	defer t.mu.Unlock()
+	return t.merge(messages)
+}
+
+// merge applies entries that are newer than the stored ones. Local writes go through it
+// as well: an unconditional local overwrite stamped by a clock that runs behind the peer
+// the stored entry came from would be listed on this node only, forever.
+func (t *topicsState) merge(messages []*api.RetainedMessage) error {
 	for _, msg := range messages {
 		if msg.Publish == nil || len(msg.Publish.Topic) == 0 {
 			return ErrInvalidPayload
@@ -76,7 +83,7 @@ func (t *topicsState) Set(message *packet.Publish) error {
 		Publish:   message,
 		LastAdded: clock(),
 	}
-	err := t.set(message.Topic, msg)
+	err := t.merge([]*api.RetainedMessage{msg})
 	if err != nil {
 		return err
 	}
@@ -114,7 +121,7 @@ func (t *topicsState) Delete(topic []byte) error {
 		},
 		LastDeleted: clock(),
 	}
-	err := t.set(topic, msg)
+	err := t.merge([]*api.RetainedMessage{msg})
 	if err != nil {
 		return err
 	}
